@@ -58,7 +58,7 @@ def Bin.bits (b : Bin) : Bits := slice b.src b.start b.len
 /-- the Go type that carries a jq integer: `int` or `*big.Int`.  gojq keeps them apart (normalize.go:18-34: a literal
     is `int` iff it fits; operator.go:477-487: int−int stays `int` unless it overflows, anything with a `*big.Int`
     operand is `*big.Int`, results are not normalised) and binary.go:104-119 has one fast-path branch per type. -/
-inductive NumRep | int | big
+inductive NumRep | int | big | flt    -- flt: a float64, the carried integer is its truncation toward zero (int(ev) / int64(v))
 deriving Repr, DecidableEq, Inhabited
 
 inductive Val
@@ -112,6 +112,8 @@ def fastPath : List Val → Option (List UInt8)
   | .num n .int :: vs =>                                     -- case int: `ev >= 0 && ev <= 255`
     if 0 ≤ n ∧ n ≤ 255 then (fastPath vs).map (UInt8.ofNat n.toNat :: ·) else none
   | .num n .big :: vs =>                                     -- case *big.Int: `ev.Cmp(0) >= 0 && ev.Cmp(255) <= 0`
+    if n ≥ 0 ∧ n ≤ 255 then (fastPath vs).map (UInt8.ofNat n.toNat :: ·) else none
+  | .num n .flt :: vs =>                                     -- case float64: `b := int(ev); b >= 0 && b <= 255`, byte(ev)
     if n ≥ 0 ∧ n ≤ 255 then (fastPath vs).map (UInt8.ofNat n.toNat :: ·) else none
   | .str s :: vs => (fastPath vs).map (s ++ ·)
   | _ :: _ => none
@@ -270,6 +272,7 @@ inductive E
   | toString (e : E)
   | explode (e : E)
   | toHex (e : E)
+  | half (k : Int)               -- the float literal k/2 (0.5, -0.5, 255.5 …): only its truncation matters (interp.go:272)
   | sub (k : Int) (e : E)        -- `e - k`, k an integer literal: how fq's own numbers (`*big.Int`) become negative / small
 deriving Repr, Inhabited
 
@@ -326,8 +329,10 @@ def eval : E → Outcome Val
     match eval e with
     | .ok v => toHexOp v
     | .error e => .error e
+  | .half k => .ok (.num (Int.tdiv k 2) .flt)
   | .sub k e =>
     match eval e with
+    | .ok (.num _ .flt) => .error .unsup                     -- float arithmetic is outside the alphabet
     | .ok (.num n r) => .ok (subNum n r k (litRep k))
     | .ok .null => .error .jqType                            -- "cannot subtract: null and number"
     | .ok _ => .error .unsup
@@ -374,6 +379,7 @@ def E.DvWF : E → Prop
   | .explode e => E.DvWF e
   | .toHex e => E.DvWF e
   | .sub _ e => E.DvWF e
+  | .half _ => True
   | .str _ => True
   | .int _ => True
   | .null => True
@@ -405,6 +411,7 @@ def showVal : Val → String
     | .ok bits => s!"b:{b.unit}:{b.start}:{b.len}:{hexOfBits bits}"
     | .error e => showErr e
   | .dv _ => "err:UNSUP"
+  | .num _ .flt => "err:UNSUP"                               -- a float is never observed on its own
   | .num n _ => s!"n:{n}"
   | .str s => "s:" ++ (if s.isEmpty then "-" else hexOfBytes s)
   | .arr vs => "a:[" ++ showVals vs ++ "]"
